@@ -157,3 +157,47 @@ have [dv ->] := IH _ _ sz1 p1 dsin.
 by eexists.
 Qed.
 End Link.
+
+(* ---------------- one_sample: n fair sign bits per repetition ---------------- *)
+Section OneSample.
+Variable n : nat.
+Variable extreme : seq nat -> bool.      (* on the vector of sign bits of one repetition *)
+
+(* all 0/1 vectors of length n: the answer space of one repetition, 2^n equally likely points *)
+Definition bitvecs : seq (seq nat) := tuples [:: 0; 1] n.
+Let a := count extreme bitvecs.
+
+Lemma size_bitvecs : size bitvecs = 2 ^ n.
+Proof. by rewrite /bitvecs size_tuples. Qed.
+
+Theorem one_sample_hits_binomial r h :
+  count (fun ds => count extreme ds == h) (tuples bitvecs r) = 'C(r, h) * a ^ h * (2 ^ n - a) ^ (r - h).
+Proof.
+have okall : all (fun _ : seq nat => true) bitvecs by apply/allP.
+have := @hits_binomial_chain unit (seq nat) (fun _ _ => tt) (fun _ d => extreme d)
+          bitvecs (fun _ => True) (fun _ => true) okall (fun _ _ _ _ => I) a (fun _ _ => erefl) r tt h I.
+rewrite /N size_bitvecs => <-.
+apply: eq_count => ds; congr (_ == _); by elim: ds => //= d ds ->.
+Qed.
+
+(* the model draws exactly those bits: on the concatenated answers, [bits] returns them and consumes them *)
+Lemma bits_prefix : forall m d t, d \in tuples [:: 0; 1] m -> bits m (d ++ t) = Ok (d, t).
+Proof.
+elim=> [|m IH] d t; first by rewrite inE => /eqP ->.
+rewrite tuplesS; case/allpairsP => [[b d'] /= [bin din ->]] /=.
+have blt : b < 2 by move: bin; rewrite !inE => /orP [/eqP ->|/eqP ->].
+by rewrite blt /= (IH _ _ din).
+Qed.
+
+Lemma one_loop_bits s (z : seq Q) r : size z = n -> forall ds, ds \in tuples bitvecs r ->
+  exists dv, one_loop s z r (flatten ds) = Ok (dv, ds, [::]) /\ size dv = r.
+Proof.
+move=> sz; elim: r => [|r IH] ds.
+  by rewrite inE => /eqP ->; exists [::].
+rewrite tuplesS; case/allpairsP => [[d ds'] /= [din dsin ->]] /=.
+have -> : length z = n by exact: sz.
+rewrite (bits_prefix _ din) /=.
+have [dv [-> szd]] := IH _ dsin.
+by eexists; split=> //=; rewrite szd.
+Qed.
+End OneSample.
